@@ -430,7 +430,7 @@ func c04SingleBox(r *sim.Run, disk []byte) {
 	if t.Chance(200) {
 		// the box is not the last thing in the buffer: bytes of a following box lie behind it (a decoder that trusts a
 		// count more than its own box size reads on into them)
-		tail := []byte{0x02, 0, 0, 0, 'm', 'd', 'a', 't', 0xff, 0xff, 0xff, 0xff, 0x7f, 0xff, 0xff, 0xff}
+		tail := []byte{0x06, 0, 0, 0, 'm', 'd', 'a', 't', 0xff, 0xff, 0xff, 0xff, 0x7f, 0xff, 0xff, 0xff}
 		if t.Bool() {
 			tail = append([]byte{0, 0, 0, 16, 'f', 'r', 'e', 'e', 0x40, 0, 0, 0, 0, 0, 0, 0}, tail...)
 		}
